@@ -97,15 +97,21 @@ class C04(netlib.Guarded, Prop):
         "(C04_mixed_net_partial, C04_mixed_net_can_complete), instantiated with no hypothesis for ScatterStep, one-input "
         "Transformer, GatherStep and CombinatorStep with any C02 combinator tree; LoopCombinatorStep/LoopOutputStep/"
         "ExecuteStep/Schedule/Transfer are only assumed to honour the contracts. FAILED is absorbing "
-        "through _reduce_statuses/_get_status when no CANCELLED is present. The executor's closing logic is a 2-field "
-        "state machine: after _cancel or close() no step is left unterminated and a FAILED/CANCELLED status makes run() "
-        "raise (this holds for the repaired _cancel; the pre-fix behaviour is kept as C04_prefix_cancel_leaves_steps_refuted). "
+        "through _reduce_statuses/_get_status when no CANCELLED is present. The executor's closing logic is a state machine "
+        "over (_closed, every step's terminated flag and status): close() turns unterminated steps into CANCELLED ones, the "
+        "raise is read off the state; in every reachable network state a FAILED termination token belongs to a FAILED "
+        "step, hence run() raises and every step is terminated (C04_failure_raises_and_terminates_all; repaired "
+        "_cancel; the pre-fix behaviour is kept as C04_prefix_cancel_leaves_steps_refuted). "
         "asyncio itself, task cancellation and real jobs are not modelled: they are exercised by running the real "
         "StreamFlowExecutor under a seeded permuting event loop on generated DAGs and comparing every step's final "
         "status and every port's history with the model.")
-    LEVEL_NOTE = ("partial: asyncio/cancellation and the merge-style steps (combinator, gather, loop, execute) are outside "
-                  "the proof; their contract is an explicit hypothesis; engine runs of scatter/gather/dot/cartesian "
-                  "graphs are judged by the oracle only")
+    LEVEL_NOTE = ("partial: asyncio and task cancellation are outside the proof (exercised only). Proved contracts: Transformer/"
+                  "ConditionalStep rounds, ScatterStep, one-input Transformer, GatherStep, CombinatorStep (any C02 tree) as log "
+                  "machines; still assumed: LoopCombinatorStep, LoopOutputStep (not single-writer: stays with C06), ExecuteStep, "
+                  "ScheduleStep, TransferStep, DeployStep, InputInjectorStep. Mixed networks have no uniform bound on "
+                  "execution length. Steps without input ports are excluded by well-formedness. Executor: the re-open "
+                  "branch of _wait_outputs (ports added while running) and run() without output ports are not modelled. "
+                  "Engine runs of scatter/gather/combinator/execute graphs are judged by the oracle only")
     TECHNIQUE = ("Coq proof (diamond property of rounds + canonical topological schedule) + vm_compute correspondence "
                  "against StreamFlowExecutor.run() under permuted asyncio schedules")
     RULE = ("net: random DAGs of 1..7 Transformer/ConditionalStep subclasses over 1..3 injected ports with 0..12 tags "
@@ -122,7 +128,8 @@ class C04(netlib.Guarded, Prop):
                "closing logic) is hand-written; asyncio (gather/wait/Queue/cancel), aiosqlite and SQLite are not "
                "modelled, only exercised",
                "the harness' Transformer/ConditionalStep subclasses (netlib.VTransformer, VCond) stand for user steps")
-    ASSUMPTIONS = ("well-formed = acyclic, single-writer ports, every injected port ends with a TerminationToken; the "
+    ASSUMPTIONS = ("well-formed = acyclic, single-writer ports, every step has at least one input port (a Transformer/"
+                   "ConditionalStep without input ports is not covered), every injected port ends with a TerminationToken; the "
                    "'runs to completion without failure' clause is judged only on shape-regular graphs (all input "
                    "ports of a step carry the same tags once)",
                    "the executor observes a held step like a long-running job: it finishes when nothing else can move")
@@ -243,20 +250,21 @@ class C04(netlib.Guarded, Prop):
             if o["ret"] == "hang":
                 return None
             if c.get("_exec"):
+                def steps(l):
+                    return coq_list([f"({coq_bool(t)}, {coq_Z(code)})" for _, t, code in l])
+
                 evs = []
                 for e in o["exec_at_return"]:
                     if len(e) < 5:
                         return None
                     evs.append(f"(mkXO {'XCancel' if e[0] == 'cancel' else 'XClose'} {coq_bool(e[1])} "
-                               f"{coq_nat(len(e[2]))} {coq_bool(e[3])} {coq_nat(len(e[4]))})")
+                               f"{steps(e[2])} {coq_bool(e[3])} {steps(e[4])})")
                 if not o["exec_at_return"]:
                     return None
                 failed_out = any(e[0] == "cancel" for e in o["exec_at_return"])
-                any_bad = any(st in ("FAILED", "CANCELLED") for st, _ in o["at_return"].values())
-                u0 = len(o["exec_at_return"][0][2])
-                u1 = sum(1 for st, t in o["at_return"].values() if not t)
-                return (f"CExec {coq_list(evs)} {coq_bool(failed_out)} {coq_bool(any_bad)} "
-                        f"{coq_bool(o['ret'].startswith('raise'))} {coq_nat(u0)} {coq_nat(u1)}")
+                at_ret = coq_list([f"({coq_bool(t)}, {coq_Z(CODE[st])})" for _, (st, t) in sorted(o["at_return"].items())])
+                return (f"CExec {coq_list(evs)} {coq_bool(failed_out)} {coq_bool(o['ret'].startswith('raise'))} "
+                        f"{steps(o['exec_at_return'][0][2])} {at_ret}")
             if not in_model(c, o):
                 return None
             tolerant = bool(o["raised"]) or not c.get("regular", False) or netlib.has_unobserved_sink(c)
